@@ -103,3 +103,156 @@ Theorem C09_secp256k1_jwk_checks : forall k,
   (jwk_decodes k = true <-> k_x_len k = 32 /\ k_y_len k = 32 /\ k_on_curve k = true).
 Proof. exact secp256k1_jwk_checks. Qed.
 Print Assumptions C09_secp256k1_jwk_checks.
+
+From SV Require Import Base.Bytes Hash.B64 Jws.Compact Jws.CompactProofs Jws.Primitive.
+Local Close Scope Z_scope.
+
+(* VerifyJWS with the signature primitive as a function V (oracle for crypto/ecdsa, btcec, ed25519) is the existing model with crypto_ok := V key signing-input decoded-signature; it rejects when there is no signing input or signature *)
+Theorem C09_primitive_layer_agrees_with_model :
+  forall (V : jwk -> bytes -> bytes -> bool) (s : bytes) (hf : hdr_facts) (k : jwk),
+         verify_jws_with V s hf k =
+         match jws_message s hf with
+         | Some (msg, sig) => verify_jws s hf k (V k msg sig)
+         | None => false
+         end.
+Proof. exact verify_with_spec. Qed.
+Print Assumptions C09_primitive_layer_agrees_with_model.
+
+(* the same, given the parsed payload, signature and the signing input *)
+Theorem C09_primitive_layer_agrees_given_message :
+  forall (V : jwk -> bytes -> bytes -> bool) (s : bytes) (hf : hdr_facts) 
+           (k : jwk) (payload sig msg : bytes),
+         parse_compact s hf = Some (payload, sig) ->
+         signing_input hf payload = Some msg ->
+         verify_jws_with V s hf k = verify_jws s hf k (V k msg sig).
+Proof. exact verify_with_agrees. Qed.
+Print Assumptions C09_primitive_layer_agrees_given_message.
+
+(* no signing input / decoded signature: rejected by both models whatever the primitive would say *)
+Theorem C09_no_message_rejected :
+  forall (V : jwk -> bytes -> bytes -> bool) (s : bytes) (hf : hdr_facts) (k : jwk),
+         jws_message s hf = None ->
+         verify_jws_with V s hf k = false /\ (forall c : bool, verify_jws s hf k c = false).
+Proof. exact verify_with_no_message. Qed.
+Print Assumptions C09_no_message_rejected.
+
+(* acceptance implies: the primitive accepted, under this key and with the decoded signature, exactly base64url(re-serialised header).payload-part computed from the decoded header and payload of the string *)
+Theorem C09_acceptance_means_primitive_accepted_signing_input :
+  forall (V : jwk -> bytes -> bytes -> bool) (s : bytes) (hf : hdr_facts) (k : jwk),
+         verify_jws_with V s hf k = true ->
+         exists payload sig msg : bytes,
+           parse_compact s hf = Some (payload, sig) /\
+           signing_input hf payload = Some msg /\
+           msg = b64_encode (h_marshal hf) ++ [dot] ++ payload_part hf payload /\
+           V k msg sig = true /\
+           jwk_decodes k = true /\
+           payload <> [] /\
+           sig <> [] /\
+           h_json_ok hf = true /\
+           h_has_alg hf = true /\
+           h_b64 hf <> B64NotBool /\
+           (eqs (k_kty k) "EC" = true /\
+            (exists n : Z,
+               ec_key_size (k_crv k) = Some n /\ Z.of_nat (Datatypes.length sig) = (2 * n)%Z) \/
+            eqs (k_kty k) "EC" = false /\ eqs (k_kty k) "OKP" = true).
+Proof. exact accept_means_primitive_accepted. Qed.
+Print Assumptions C09_acceptance_means_primitive_accepted_signing_input.
+
+(* the signing input determines re-serialised header and payload when both sides use the same b64 mode *)
+Theorem C09_signing_input_injective_same_mode :
+  forall (hf hf' : hdr_facts) (p p' m : bytes),
+         raw_payload hf = raw_payload hf' ->
+         signing_input hf p = Some m ->
+         signing_input hf' p' = Some m -> h_marshal hf = h_marshal hf' /\ p = p'.
+Proof. exact signing_input_injective_same_mode. Qed.
+Print Assumptions C09_signing_input_injective_same_mode.
+
+(* two compact strings that both verify under k and differ in re-serialised header or payload: the primitive accepted two DIFFERENT messages under k *)
+Theorem C09_tamper_evident :
+  forall (V : jwk -> bytes -> bytes -> bool) (s s' : bytes) (hf hf' : hdr_facts) 
+           (k : jwk) (p g p' g' : bytes),
+         verify_jws_with V s hf k = true ->
+         verify_jws_with V s' hf' k = true ->
+         parse_compact s hf = Some (p, g) ->
+         parse_compact s' hf' = Some (p', g') ->
+         h_marshal hf <> h_marshal hf' \/ p <> p' /\ raw_payload hf = raw_payload hf' ->
+         exists m m' : bytes,
+           m <> m' /\
+           jws_message s hf = Some (m, g) /\
+           jws_message s' hf' = Some (m', g') /\ V k m g = true /\ V k m' g' = true.
+Proof. exact tamper_evident. Qed.
+Print Assumptions C09_tamper_evident.
+
+(* if under k the primitive accepts one message only, everything that verifies under k carries the same header and payload *)
+Theorem C09_unforgeable_primitive_at_most_one_message :
+  forall (V : jwk -> bytes -> bytes -> bool) (s s' : bytes) (hf hf' : hdr_facts) 
+           (k : jwk) (m0 p g p' g' : bytes),
+         (forall m sig : bytes, V k m sig = true -> m = m0) ->
+         verify_jws_with V s hf k = true ->
+         verify_jws_with V s' hf' k = true ->
+         parse_compact s hf = Some (p, g) ->
+         parse_compact s' hf' = Some (p', g') ->
+         h_marshal hf = h_marshal hf' /\ (raw_payload hf = raw_payload hf' -> p = p').
+Proof. exact unforgeable_at_most_one_message. Qed.
+Print Assumptions C09_unforgeable_primitive_at_most_one_message.
+
+(* acceptance under another key k' means the primitive accepted that very message and signature under k' *)
+Theorem C09_key_binding :
+  forall (V : jwk -> bytes -> bytes -> bool) (s : bytes) (hf : hdr_facts) 
+           (k' : jwk) (msg sig : bytes),
+         jws_message s hf = Some (msg, sig) ->
+         verify_jws_with V s hf k' = true -> V k' msg sig = true.
+Proof. exact other_key_accepts_same_message. Qed.
+Print Assumptions C09_key_binding.
+
+(* a key under which the primitive rejects (message, signature) rejects the JWS *)
+Theorem C09_rejected_under_key_that_does_not_verify :
+  forall (V : jwk -> bytes -> bytes -> bool) (s : bytes) (hf : hdr_facts) 
+           (k' : jwk) (msg sig : bytes),
+         jws_message s hf = Some (msg, sig) ->
+         V k' msg sig = false -> verify_jws_with V s hf k' = false.
+Proof. exact rejected_under_key_that_does_not_verify. Qed.
+Print Assumptions C09_rejected_under_key_that_does_not_verify.
+
+(* the message handed to the primitive does not depend on the key *)
+Theorem C09_message_independent_of_key :
+  forall (V : jwk -> bytes -> bytes -> bool) (s : bytes) (hf : hdr_facts) (k k' : jwk),
+         verify_jws_with V s hf k = true ->
+         verify_jws_with V s hf k' = true ->
+         exists msg sig : bytes,
+           jws_message s hf = Some (msg, sig) /\ V k msg sig = true /\ V k' msg sig = true.
+Proof. exact message_independent_of_key. Qed.
+Print Assumptions C09_message_independent_of_key.
+
+(* a compact JWS built from header, payload and sign(signing input) verifies when the primitive accepts the signer's signature (correctness of the primitive for the key pair) *)
+Theorem C09_sign_then_verify_with_primitive :
+  forall (V : jwk -> bytes -> bytes -> bool) (sign : bytes -> bytes)
+           (header payload : list Byte.byte) (hf : hdr_facts) (k : jwk) (msg : bytes),
+         V k msg (sign msg) = true ->
+         header <> [] ->
+         payload <> [] ->
+         sign msg <> [] ->
+         h_json_ok hf = true ->
+         h_has_alg hf = true ->
+         signing_input hf payload = Some msg ->
+         jwk_decodes k = true ->
+         eqs (k_kty k) "EC" = true /\
+         (exists n : Z,
+            ec_key_size (k_crv k) = Some n /\ Z.of_nat (Datatypes.length (sign msg)) = (2 * n)%Z) \/
+         eqs (k_kty k) "EC" = false /\ eqs (k_kty k) "OKP" = true ->
+         verify_jws_with V (compact header payload (sign msg)) hf k = true.
+Proof. exact sign_then_verify_with. Qed.
+Print Assumptions C09_sign_then_verify_with_primitive.
+
+(* and the message extracted from it is the signing input that was signed *)
+Theorem C09_built_jws_carries_signed_message :
+  forall (header payload sig : list Byte.byte) (hf : hdr_facts) (msg : bytes),
+         header <> [] ->
+         payload <> [] ->
+         sig <> [] ->
+         h_json_ok hf = true ->
+         h_has_alg hf = true ->
+         signing_input hf payload = Some msg ->
+         jws_message (compact header payload sig) hf = Some (msg, sig).
+Proof. exact built_jws_message. Qed.
+Print Assumptions C09_built_jws_carries_signed_message.
